@@ -23,6 +23,7 @@ CFG = {
     "weights": {"new_space": 1.5, "del_space": 0.4, "new_cells": 2.5, "set_formula": 1.5, "set_cached": 0.4,
                 "del_cells": 1.2, "rename_cells": 0.8, "add_bases": 2.5, "remove_bases": 1.0, "set_ref": 2.0,
                 "del_ref": 0.8, "set_mref": 0.4, "set_value": 1.0, "eval": 2.0, "evalall": 0.5, "bad": 5.0},
+    "clash_wide": True,
 }
 RULE = ("random histories (12-26 ops) in which about a quarter of the operations are invalid on purpose (invalid and "
         "clashing names, cyclic bases, bases without linearisation, deleting/renaming derived members, malformed "
@@ -100,7 +101,18 @@ def _diff(a, b):
 
 
 def run(ctx, out):
-    S.run_struct(ctx, out, "C11", CFG, H, 80, 1500, RULE)
+    stats = S.run_struct(ctx, out, "C11", CFG, H, 80, 1500, RULE + (
+        "; plus name-clash histories (struct_props.gen_clash): every kind of member and the model-level references are "
+        "named from one alphabet of four names, bases with several sub spaces, re-deriving edits after every request - "
+        "the refusals decided by what a SUB space uses a name for"), clash=(40, 800))
+    fam = S.refusal_family()
+    refused = S.run_family(out, stats, fam, H, CFG, "refusal_family")
+    out.coverage["evaluations"] += len(fam)
+    out.coverage["input_distribution"] = dict(stats)
+    out.coverage["rule"] += ("; plus the refusal family (struct_props.refusal_family): %d programs in which a request "
+                             "made to a base has to be refused because of what one of SEVERAL sub spaces uses the name "
+                             "for (model-level reference of the name created before / after / not at all), followed by "
+                             "re-deriving edits; %d contain a refused edit" % (len(fam), refused))
 
 
 def replay(ctx, payload, out):
